@@ -18,7 +18,7 @@ pub fn def() -> PropDef {
     gen,
     check,
     panic_policy: PanicPolicy::Count,
-    rule: "random source trees (all leaf kinds incl. multi-byte and invalid UTF-8 text, wild maps, custom sources over multi-piece ropes; Concat/Replace/Cached/Boxed to depth 3 quick / 5 thorough); a case is non-trivial when a stream delivered >= 2 chunks and the tree has a composite (Concat with >=2 children, Replace with >=1 op, or Cached replay) re-slicing child chunks; distinct = distinct spec fingerprint",
+    rule: "random source trees (all leaf kinds incl. multi-byte and invalid UTF-8 text, wild maps, custom sources over multi-piece ropes; Concat/Replace/Cached/Boxed to depth 3 quick / 5 thorough); a case is non-trivial when a stream delivered >= 2 chunks and the tree has a composite (Concat with >=2 children, Replace with >=1 op, or Cached replay) re-slicing child chunks; trees repeat an earlier sibling now and then and, in every second case, equal Cached nodes of the tree under test are one shared instance / clones sharing one cache; distinct = distinct spec fingerprint",
     cases: |t| match t {
       Tier::Quick => 100_000,
       Tier::Thorough => 2_000_000,
